@@ -285,6 +285,13 @@ class CollectMultipart(DictOps, Contract):
             X.prove('listified.one_set_per_view', z3.BoolVal(False))
         self.lsets = m
 
+    def havoc_override(self, X, k, name):
+        # the `listified` display is mutated through its values (the three sets): they are havoced in after_havoc;
+        # the display itself (which key maps to which set object) is not changed by the loop: it has no item store
+        if name == 'listified' and 'listified' in X.env:
+            return X.env['listified']
+        return None
+
     def after_havoc(self, X, k):
         for v in self.views.values():
             v.havoc_state(X)
